@@ -15,6 +15,13 @@
      WaitReturn        __parsec_context_wait leaves its loop: enabled iff active = 0 (all_tasks_done)
      TpWaitEnter/Return(tp)  parsec_taskpool_wait: returns iff the termination detector of tp says TERMINATED
      Test              parsec_context_test: returns active = 0
+   DTD taskpools (kind "d", parsec/interfaces/dtd/insert_function.c):
+     their termination detector is only made ready by on_enter_wait (parsec_dtd_taskpool_enter_wait), i.e. while the
+     main thread is inside parsec_context_wait; WaitReturn runs on_leave_wait = parsec_dtd_taskpool_leave_wait on each
+     of them: new detector, active++ (re-attached, state "rearmed"); FreeTp(tp) = parsec_taskpool_free ->
+     parsec_dtd_taskpool_destructor -> parsec_taskpool_termination_detected: active-- and, when DtdCbAtFree (= the
+     code), the completion callback AGAIN.  TLC shows that CbOnce fails for DTD taskpools with DtdCbAtFree = TRUE
+     (finding dtd-callback-again-at-free) and holds with FALSE.
    Property part (C06), as invariants:
      WaitSafe     when parsec_context_wait has returned, every taskpool added before (by the main thread, by a task or
                   by a callback) has run all its tasks and its callback
@@ -28,11 +35,12 @@ CONSTANTS TPs,          \* taskpool ids 1..N
           MaxEpochs,    \* number of start..wait cycles
           MaxPerEpoch,  \* bound on the taskpools (children included) registered in one epoch
           Kinds,        \* subset of {"p", "d"}: PTG / DTD taskpools (the model treats them alike; the driver does not)
-          CbAfterDec    \* FALSE = the code; TRUE = seeded defect (active-- before the callback)
+          CbAfterDec,   \* FALSE = the code; TRUE = seeded defect (active-- before the callback)
+          DtdCbAtFree   \* TRUE = the code: the DTD destructor runs the completion callback once more
 VARIABLES ctx,          \* "idle" | "started" | "waiting"
           main,         \* what the main thread is blocked in: <<"free", 0>> | <<"ctxwait", 0>> | <<"tpwait", tp>>
           active, epoch,
-          st,           \* tp -> "new" | "reserved" | "added" | "cb" | "dec" | "term"
+          st,           \* tp -> "new" | "reserved" | "added" | "cb" | "dec" | "term" | "rearmed" | "freed"
           left, run, cb,
           plan,         \* tp -> [n, ct, cc, kind]: tasks, child added from the first task, child added from the callback
           addEpoch,     \* tp -> epoch in which it was added
@@ -53,6 +61,7 @@ Init == /\ ctx = "idle" /\ main = Free /\ active = 0 /\ epoch = 0
 Fresh == {t \in TPs : st[t] = "new"}
 
 Start == /\ main = Free /\ ctx = "idle" /\ epoch < MaxEpochs
+         /\ \A t \in TPs : st[t] # "rearmed"                    \* the driver frees DTD taskpools right after the wait
          /\ ctx' = "started" /\ active' = active + 1
          /\ hist' = Append(hist, [op |-> "start"])
          /\ UNCHANGED <<main, epoch, st, left, run, cb, plan, addEpoch, tpwaited>>
@@ -106,7 +115,8 @@ TaskEnd(t) == /\ st[t] = "added" /\ run[t] > 0
               /\ run' = [run EXCEPT ![t] = @ - 1]
               /\ UNCHANGED <<ctx, main, active, epoch, st, left, cb, plan, addEpoch, tpwaited, hist>>
 
-Finished(t) == st[t] = "added" /\ left[t] = 0 /\ run[t] = 0
+\* the termination of a DTD taskpool can only be detected once on_enter_wait made its detector ready
+Finished(t) == st[t] = "added" /\ left[t] = 0 /\ run[t] = 0 /\ (plan[t].kind = "d" => main = CtxWait)
 \* parsec_taskpool_termination_detected: on_complete(tp) then active_taskpools--
 Callback(t) == /\ IF CbAfterDec THEN st[t] = "dec" ELSE Finished(t)
                /\ cb' = [cb EXCEPT ![t] = @ + 1]
@@ -129,9 +139,19 @@ WaitEnter == /\ main = Free /\ ctx = "started"
              /\ main' = CtxWait /\ ctx' = "waiting" /\ active' = active - 1
              /\ hist' = Append(hist, [op |-> "wait"])
              /\ UNCHANGED <<epoch, st, left, run, cb, plan, addEpoch, tpwaited>>
+Dtd == {t \in TPs : plan[t].kind = "d"}
 WaitReturn == /\ main = CtxWait /\ active = 0
               /\ main' = Free /\ ctx' = "idle" /\ epoch' = epoch + 1
-              /\ UNCHANGED <<active, st, left, run, cb, plan, addEpoch, tpwaited, hist>>
+              \* parsec_context_leave_wait: every DTD taskpool re-arms its detector and re-attaches to the context
+              /\ st' = [t \in TPs |-> IF t \in Dtd /\ st[t] = "term" THEN "rearmed" ELSE st[t]]
+              /\ active' = Cardinality({t \in Dtd : st[t] = "term"})
+              /\ UNCHANGED <<left, run, cb, plan, addEpoch, tpwaited, hist>>
+\* parsec_taskpool_free of a DTD taskpool after the wait (FreeTp)
+FreeTp(t) == /\ main = Free /\ ctx = "idle" /\ st[t] = "rearmed"
+           /\ st' = [st EXCEPT ![t] = "freed"]
+           /\ cb' = [cb EXCEPT ![t] = IF DtdCbAtFree THEN @ + 1 ELSE @]
+           /\ active' = active - 1
+           /\ UNCHANGED <<ctx, main, epoch, left, run, plan, addEpoch, tpwaited, hist>>
 
 TpWaitEnter(t) == /\ main = Free /\ ctx = "started" /\ st[t] \in {"added", "cb", "dec", "term"} /\ t \notin tpwaited
                   /\ plan[t].kind = "p"
@@ -158,6 +178,7 @@ Next == \/ Start
         \/ \E t \in TPs : Retire(t)
         \/ WaitEnter
         \/ WaitReturn
+        \/ \E t \in TPs : FreeTp(t)
         \/ \E t \in TPs : TpWaitEnter(t)
         \/ \E t \in TPs : TpWaitReturn(t)
         \/ Test
@@ -167,7 +188,7 @@ Spec == Init /\ [][Next]_vars
 Used(t) == st[t] \notin {"new", "reserved"}
 AllTasksEnded(t) == left[t] = 0 /\ run[t] = 0
 \* parsec_context_wait returned (epoch advanced): everything added during the finished epochs is complete
-WaitSafe == \A t \in TPs : (Used(t) /\ addEpoch[t] < epoch) => (AllTasksEnded(t) /\ cb[t] = 1)
+WaitSafe == \A t \in TPs : (Used(t) /\ addEpoch[t] < epoch) => (AllTasksEnded(t) /\ cb[t] >= 1)
 \* nothing is left half-registered either: a reserved child of a finished taskpool was added
 ChildrenAdded == \A t \in TPs : (Used(t) /\ addEpoch[t] < epoch) =>
                     /\ (plan[t].ct # None => Used(plan[t].ct))
@@ -177,5 +198,5 @@ CbOnce == \A t \in TPs : cb[t] <= 1 /\ (cb[t] = 1 => AllTasksEnded(t))
 TypeOK == active \in 0..(Cardinality(TPs) + 1) /\ epoch \in 0..MaxEpochs
 
 \* complete histories for the replay driver: every epoch closed
-Emit == (epoch = MaxEpochs /\ main = Free) => PrintT(<<"VH", ToJson(hist)>>)
+Emit == (epoch = MaxEpochs /\ main = Free /\ \A t \in TPs : st[t] # "rearmed") => PrintT(<<"VH", ToJson(hist)>>)
 ======================================================================
